@@ -3,7 +3,7 @@
    specification; these lemmas are what makes "the set of detectors whose form contains that variable" the set it flips. *)
 From Coq Require Import List Bool NArith.
 Import ListNotations.
-Require Adj AdjGen TableAdj.
+Require Adj AdjGen TableAdj GenProofs_RevMeas.
 Require Import Stab Spec SpecProofs GF2.
 
 (* for EVERY assignment, a detector's value is the XOR of the values of the measurement results it names *)
@@ -24,4 +24,10 @@ Theorem C18_adjoint_all_gates :
   forall n (c : list TableAdj.tgop), Forall (TableAdj.tok n) c -> forall (D : AdjGen.det) (F : AdjGen.st),
   AdjGen.parity_at D 0 (AdjGen.frun (map TableAdj.compile c) F) = AdjGen.pair_upto n (AdjGen.back (map TableAdj.compile c) D) F.
 Proof. exact TableAdj.adjoint_table_circuits. Qed.
+(* the reverse tracker's measurement / reset undo routines (undo_MX .. undo_MRZ, undo_RX .. undo_RZ, regenerated from source) are
+   the backward steps of that theorem for the gate's documented basis, and test the anticommuting component for gauges *)
+Theorem C18_revtrack_measure_reset_routines_match : GenProofs_RevMeas.revmeas_all_ok = true.
+Proof. exact GenProofs_RevMeas.revmeas_routines_match_adjgen. Qed.
+Theorem C18_analyzer_measure_reset_routines_match : GenProofs_RevMeas.ea_revmeas_all_ok = true.
+Proof. exact GenProofs_RevMeas.analyzer_measure_reset_routines_match_adjgen. Qed.
 Print Assumptions C18_adjoint_all_gates. Print Assumptions C18_forms_are_affine. Print Assumptions C18_adjoint_partial.
